@@ -137,9 +137,14 @@ static Level fam_semladder(int N) {
   return {"semantic ladder n=1.." + std::to_string(N), [=](const CB &cb) {
             auto S = [](int i) { return std::to_string(i); };
             std::string add = "PROGRAM add IN a, b OUT r DO\n  r := a;\n  LOOP b DO\n    r := r + 1\n  END\nEND\n";
-            for (int n = 1; n <= N; n++) {
+            std::vector<int> rungs; for (int n = 1; n <= N; n++) rungs.push_back(n);
+            for (int big : {48, 64, 96, 128, 160}) if (big > N) rungs.push_back(big);  // the width family alone also at sizes that cross 128 / 256 / 384 registers
+            for (int n : rungs) {
+              bool wide_only = n > N;
               { std::string m = add; for (int i = 1; i <= n; i++) m += "v" + S(i) + " := " + (i == 1 ? std::string("1") : "v" + S(i - 1) + " + 1") + ";\n";
                 m += "w := RUN add WITH RUN add WITH v" + S(n) + ", 1 END, v1 END;\nu := RUN add WITH w, v" + S(n) + " END;\nt := u - 1\n"; cb(single(m)); }
+              if (wide_only) { // the same width inside a called program
+                std::string m = "PROGRAM wide IN a OUT r DO\n  v0 := a"; for (int i = 1; i <= n; i++) m += ";\n  v" + S(i) + " := v" + S(i - 1) + " + 1"; m += ";\n  r := v" + S(n) + "\nEND\nq := RUN wide WITH 2 END\n"; cb(single(m)); continue; }
               if (n <= 8) { std::string m = "c := 2;\n"; for (int i = 0; i < n; i++) m += std::string(2 * i, ' ') + "LOOP c DO\n"; m += std::string(2 * n, ' ') + "s := s + 1\n"; for (int i = n; i-- > 0;) m += std::string(2 * i, ' ') + "END" + (i ? "\n" : ";\n"); m += "r := s\n"; cb(single(m)); }
               { std::string m = "PROGRAM f0 IN a DO\n  x0 := a\nEND\n"; for (int i = 1; i <= n; i++) m += "PROGRAM f" + S(i) + " IN a DO\n  x0 := RUN f" + S(i - 1) + " WITH a END;\n  x0 := x0 + 1\nEND\n"; m += "r := RUN f" + S(n) + " WITH 3 END\n"; cb(single(m)); }
               if (n <= 16) { std::string h = "PROGRAM g IN a1"; for (int i = 2; i <= n; i++) h += ", a" + S(i); h += " OUT r DO\n  r := a1"; for (int i = 2; i <= n; i++) h += ";\n  LOOP a" + S(i) + " DO\n    r := r + 1\n  END"; h += "\nEND\n"; std::string c = "r := RUN g WITH 1"; for (int i = 2; i <= n; i++) c += ", " + S(i % 3); cb(single(h + c + " END\n")); }
